@@ -390,6 +390,8 @@ def run_one(spec: dict) -> dict:
             w.probe("silent_mode")
         if run["dialect"] not in ("ansi", "non-validating", "tsql"):
             w.probe("dialect_zoo")
+        if run["tag"].startswith("corpus"):
+            w.probe("corpus_input")
         fired_at = None
         out = []
         try:
@@ -602,6 +604,19 @@ def gen_run(g, tag, provider, allow_faults=True, legacy_p=0.5, special=True):
     return {"tag": tag, "script": script, "dialect": dialect, "provider": provider, "faults": faults, "silent": silent, "accessors": accessors}
 
 
+_CORPUS = None
+
+
+def corpus_items():
+    global _CORPUS
+    if _CORPUS is None:
+        from ..util import VERIF_DIR
+
+        with open(os.path.join(VERIF_DIR, "corpus", "corpus.json")) as f:
+            _CORPUS = [it for it in json.load(f) if not it.get("cfg")]
+    return _CORPUS
+
+
 def gen(seed, tier="quick") -> dict:
     g = stream(seed, "gen")
     faulty = g.random() < 0.65
@@ -622,6 +637,14 @@ def gen(seed, tier="quick") -> dict:
         runs = []
         for _ in range(g.choice([1, 2, 2, 3])):
             rid += 1
+            if g.random() < 0.1:
+                # a statement (or script) the repository's own tests use, with the metadata the test gives it,
+                # on a provider of its own - real inputs under histories and schedules
+                it = g.choice(corpus_items())
+                providers.append({"kind": "dummy", "meta": dict(it["meta"] or {})})
+                runs.append({"tag": f"corpus{rid}", "script": [it["sql"]], "dialect": it["dialect"], "provider": len(providers) - 1, "faults": [],
+                             "silent": bool(it.get("silent")), "accessors": g.sample(ACC_POOL, 3)})
+                continue
             prov = g.choice(own) if g.random() < 0.75 else None
             if shared_texts and g.random() < 0.2:
                 # the same script text under another provider / thread
